@@ -133,6 +133,8 @@ class C15:
             cnt[0] += 1
             return ["markup", "K%d_%dz [bold]b[/bold] [link=https://e.x/?a=1&b=2]l[/link] \\[esc] &lt;" % (t, cnt[0])]
         if not single:
+            if r < 0.94:
+                return ["export_text", False, False]
             return ["print", self._gen_text(rng, t, cnt), ""]
         if r < 0.94:
             return ["export_text", rng.random() < 0.4, rng.random() < 0.4]
@@ -199,6 +201,7 @@ class Prog:
         self.done = 0
         self.single = self.n == 1
         self.captured_tokens = set()
+        self.mid_exports = []
         self.probes = {"exports_text": 0, "exports_html": 0, "exports_styled": 0, "captures": 0, "clearing_exports": 0,
                        "control_ops": 0, "links": 0, "html_special_chars": 0, "multi_thread_runs": int(self.n > 1)}
         for t in range(self.n):
@@ -217,6 +220,10 @@ class Prog:
             finally:
                 self.done += 1
                 if self.done == self.n:
+                    order = TOKEN.findall(self.visible_since())
+                    for toks in self.mid_exports:
+                        if toks != order[:len(toks)]:
+                            self._v("export-text", "concurrent-export-not-prefix", "an export taken while other threads were printing returned tokens %r, not a prefix of the file order %r" % (toks[:20], order[:20]))
                     for op in self.case["final"]:
                         self.do(t, op, final=True)
         return run
@@ -282,6 +289,10 @@ class Prog:
         elif k == "export_text":
             clear, styles = op[1], op[2]
             if not self.single and not final:
+                # concurrent export without clear: whatever it returns must be a prefix of the order
+                # in which the output finally reached the file (checked at quiescence)
+                self.probes["concurrent_exports"] = self.probes.get("concurrent_exports", 0) + 1
+                self.mid_exports.append(TOKEN.findall(con.export_text(clear=False, styles=False)))
                 return
             V = self.visible_since()
             raw = "".join(w[2] for w in self.file.writes[self.rec_start:])
